@@ -90,3 +90,62 @@ Example C18_hypotheses_satisfiable :
                            st_levels := [(0, 0, 0); (1, 1, 0); (4, 3, 1); (6, 3, 3)] |} /\
             levels_walk T = Ok [(0, 0, 0); (1, 1, 0); (4, 3, 1); (6, 3, 3)].
 Proof. vm_compute. eexists. repeat split. Qed.
+
+(* ---- Stat over the MESSAGE and over the LOADED INSTANCE (composition of L2, L3 and L4) -------
+   coq/theories/StatMsg.v runs initLevels and Stat the way the Go code runs them over the
+   protobuf message fields (Bits.msg): Rank64 on NodeTypeBM at the last bit position (number
+   of inner nodes) and at the first id of every level, Rank128 on Inners at the last bit
+   position (number of label bits + 1 = NodeCnt) and at the label-bitmap offset computed by
+   getIthInnerFrom (BigInnerCnt, ShortBM rank, vars), Stat reading the stored table and
+   NodeTypeBM == nil.  coq/theories/StatMsgInst.v puts this into the instance state machine
+   of Unmarshal / Reset (Instance.v): levels = initLevels(inner), Reset leaves {{0,0,0}}. *)
+From Coq Require Import NArith ZArith.
+From Slim Require Import BitmapRank Proto Instance Wire EndToEnd StatMsg StatMsgProofs StatMsgInst StatMsgInstProofs.
+From Slim Require Bits.
+Local Open Scope nat_scope.
+
+(* on the message of every built trie the level table computed from the message fields is
+   the table of the tree, and Stat over it is the tree's Stat: every clause of C18_stat
+   holds for what the implementation computes from its bitmaps *)
+Theorem C18_message_level_stat :
+  forall o keys vals T m vs,
+    build o keys vals = Ok T -> Bits.encode_trie T = Val m -> Bits.init_vars m = Val vs ->
+    minit_levels m = Ok (levels T) /\ mstat m (minit_levels m) = stat T.
+Proof.
+  intros o keys vals T m vs Hb Em Ev.
+  exact (conj (minit_levels_levels o keys vals T m vs Hb Em Ev) (mstat_stat o keys vals T m vs Hb Em Ev)).
+Qed.
+Print Assumptions C18_message_level_stat.
+
+(* "unchanged by a marshal round trip": build a trie from ANY accepted input, take its
+   message m (tied to creator.build field by field in check L3), Marshal it and Unmarshal the
+   bytes into an instance in ANY state after ANY history of Unmarshal / Reset calls.  The
+   loaded instance holds the same level table and reports the same Stat() as the instance
+   NewSlimTrie returned ([built]: inner = m, vars = initVars(m), levels = initLevels(m)),
+   and both are the tree's.  [wf_msg (to_wire m)]: counts and offsets fit the Go field types
+   and the body is below 2^63 bytes; to_wire is the identity on fields. *)
+Theorem C18_roundtrip_unchanged :
+  forall (conv510 : slim -> slim) (conv3 : list byte -> list byte -> list byte -> slim)
+         o keys vals T m vs s (st : inst VarsT LevelsT) h,
+    build o keys vals = Ok T -> Bits.encode_trie T = Val m -> Bits.init_vars m = Val vs ->
+    wf_msg (to_wire m) = true -> marshal_gen (to_wire m) = Some s ->
+    let built := installed VarsT LevelsT ivars ilevels (to_wire m) in
+    let loaded := run compat_gen cur_gen VarsT LevelsT ivars ilevels reset_lv conv510 conv3 st (h ++ [OpUnmarshal s]) in
+    inst_levels loaded = inst_levels built /\ inst_stat loaded = inst_stat built /\
+    inst_levels loaded = Ok (levels T) /\ inst_stat loaded = stat T.
+Proof. exact loaded_stat. Qed.
+Print Assumptions C18_roundtrip_unchanged.
+
+(* the hypotheses hold for the trie of the example above; the message-level functions
+   compute its table from the bitmaps *)
+Example C18_roundtrip_example :
+  exists T m vs s, build (normalize ex_opt) ex_keys ex_vals = Ok T /\ Bits.encode_trie T = Val m /\
+    Bits.init_vars m = Val vs /\ wf_msg (to_wire m) = true /\ marshal_gen (to_wire m) = Some s /\
+    mstat m (minit_levels m) = Ok {| st_keycnt := 3; st_nodecnt := 6; st_levelcnt := 4;
+                                     st_levels := [(0, 0, 0); (1, 1, 0); (4, 3, 1); (6, 3, 3)] |}.
+Proof.
+  destruct (build (normalize ex_opt) ex_keys ex_vals) as [T|] eqn:E; [|vm_compute in E; discriminate].
+  vm_compute in E. injection E as <-.
+  eexists _, _, _, _. split; [reflexivity|]. split; [vm_compute; reflexivity|]. split; [vm_compute; reflexivity|].
+  split; [vm_compute; reflexivity|]. split; [vm_compute; reflexivity|]. vm_compute. reflexivity.
+Qed.
